@@ -1222,7 +1222,7 @@ def _run_sequential(ctx):
 
 
 def replay(case):
-    if case.get('kind') == 'e2e':
+    if case.get('kind') in ('e2e', 'e2e-race'):
         from vf.harness import c12e2e
         return c12e2e.replay_e2e(case)
     part = core.Part()
